@@ -282,9 +282,15 @@ WAYS = {
 
 def observe(v: dict, vi: int, c: int, way: str) -> dict:
   conc = Conc(c, vi)
-  orig = conc.build(v)
   row = {'i': vi, 'v': v, 'way': way, 'conc': c, 'ok': False, 'back': {'t': 'err', 'a': 0, 'ks': [], 'xs': []},
-         'eq': False, 'type': False, 'hash': False, 'tree': False, 'err': '', 'hashwhy': 'hash'}
+         'eq': False, 'type': False, 'hash': False, 'tree': False, 'err': '', 'hashwhy': 'hash', 'built': False}
+  try:
+    orig = conc.build(v)
+    row['built'] = True
+  except Exception as e:  # pylint: disable=broad-except
+    # the value cannot even be constructed (e.g. a dict with a '_type' key inside a tuple is re-interpreted)
+    row['err'] = f'build: {type(e).__name__}: {str(e)[:100]}'
+    return row
   try:
     back = WAYS[way](orig)
   except Exception as e:  # pylint: disable=broad-except
